@@ -102,6 +102,9 @@ type bvSite struct {
 	A, B *Term // obligation A <= B
 	OK   bool
 	Seq  int // value of the path's access counter at this access
+	// Slice: the obligation comes from a slice expression b[i:j]; at run time j is checked against the
+	// capacity, not the length, so a failed obligation need not panic
+	Slice bool
 }
 
 type bvPath struct {
@@ -985,13 +988,13 @@ func (bi *bvInterp) expr(p *bvPath, e ast.Expr) *bvVal {
 			hi := p.Ctx.linOf(hv.BV)
 			nv.Len = hi.Sub(lo)
 			if vl != nil {
-				s := &bvSite{Pos: x.Pos(), Text: types.ExprString(x), A: hi, B: vl, Seq: p.Reads + 1}
+				s := &bvSite{Pos: x.Pos(), Text: types.ExprString(x), A: hi, B: vl, Seq: p.Reads + 1, Slice: true}
 				s.OK = p.Ctx.prove(hi, vl) && p.Ctx.prove(lo, hi) && p.Ctx.prove(Const(0), lo)
 				p.Sites = append(p.Sites, s)
 			}
 		} else if vl != nil {
 			nv.Len = vl.Sub(lo)
-			s := &bvSite{Pos: x.Pos(), Text: types.ExprString(x), A: lo, B: vl, Seq: p.Reads + 1}
+			s := &bvSite{Pos: x.Pos(), Text: types.ExprString(x), A: lo, B: vl, Seq: p.Reads + 1, Slice: true}
 			s.OK = p.Ctx.prove(lo, vl) && p.Ctx.prove(Const(0), lo)
 			p.Sites = append(p.Sites, s)
 		}
